@@ -11,7 +11,7 @@ from ..core.program import AnalysisError, Program, ancestors, enclosing_stmt, no
 from ..engines import sign as S
 from ..report import Result
 from ..runner import Variant
-from . import c11
+from . import _match, c11
 
 PROP = "C15"
 EXPLANATION = (
@@ -219,37 +219,7 @@ def check_pair(prog: Program, res: Result) -> None:
 
 
 def check_greedy(prog: Program, res: Result) -> None:
-    R = "C15-greedy"
-    fi = prog.func("sleap_nn.tracking.utils:greedy_matching")
-    res.touch(fi)
-    pops = [c for c in astq.method_calls(fi.node, "pop")]
-    res.ob(R, len(pops) == 1 and norm(pops[0]) == "unassigned_edges.pop(0)", fi.qualname, "lowest-cost edge taken first", "the next edge is not popped from the head of the sorted edge list", fi.where)
-    if len(pops) != 1:
-        return
-    st = enclosing_stmt(pops[0])
-    rc = [norm(e) for e in st.targets[0].elts] if isinstance(st, ast.Assign) and isinstance(st.targets[0], ast.Tuple) else []
-    dels = [n for n in walk_function(fi.node) if isinstance(n, ast.Delete)]
-    res.ob(R, len(dels) == 1 and len(rc) == 2, fi.qualname, "one removal statement", f"{len(dels)} del statements", fi.where)
-    if len(dels) != 1 or len(rc) != 2:
-        return
-    g = [a for a in ancestors(dels[0]) if isinstance(a, ast.If)]
-    t = g[0].test if g else None
-    ok = isinstance(t, ast.BoolOp) and isinstance(t.op, ast.Or) and len(t.values) == 2
-    if ok:
-        parts = sorted(norm(v) for v in t.values)
-        ok = parts == sorted([f"unassigned_edges[i][0] == {rc[0]}", f"unassigned_edges[i][1] == {rc[1]}"])
-    res.ob(R, ok, fi.qualname, "edges sharing the chosen row OR column are removed",
-           f"after choosing ({', '.join(rc)}) edges are removed under `{short(t, 70) if t is not None else '?'}`: a row or a column can be assigned twice", f"{fi.module.relpath}:{dels[0].lineno}")
-    lp = astq.enclosing_loops(dels[0])
-    ok = bool(lp) and norm(lp[0].iter) == "range(len(unassigned_edges) - 1, -1, -1)"
-    res.ob(R, ok, fi.qualname, "removal iterates backwards", f"removal iterates `{short(lp[0].iter, 50) if lp else '?'}`: deleting while iterating forwards skips edges", f"{fi.module.relpath}:{dels[0].lineno}")
-    srt = [c for c in walk_function(fi.node) if isinstance(c, ast.Call) and norm(c.func) == "np.argsort"]
-    ok = len(srt) == 1 and norm(srt[0].args[0]) == "cost_matrix" and any(k.arg == "axis" and norm(k.value) == "None" for k in srt[0].keywords)
-    res.ob(R, ok, fi.qualname, "edges sorted by ascending cost over the whole matrix", "edges are not sorted by ascending cost over the flattened matrix", fi.where)
-    apps = {norm(c.func.value): norm(c.args[0]) for c in astq.method_calls(fi.node, "append")}
-    res.ob(R, apps.get("row_inds") == rc[0] and apps.get("col_inds") == rc[1], fi.qualname, "chosen row/col recorded in row_inds/col_inds",
-           f"row_inds/col_inds receive {apps}", fi.where)
-    res.floor(R, 6)
+    _match.check_greedy(prog, res, "C15-greedy")
 
 
 def check(prog: Program, res: Result) -> None:
